@@ -614,3 +614,70 @@ _c16_prev2 = harnesses
 
 def harnesses(tier):   # noqa: F811
     return _c16_prev2(tier) + [SubstanceAdd()]
+
+
+# --------------------------------------------------------------------------------------------------------------
+# Which names eval_expr takes for a substance: a substance name, an element symbol, a well-formed formula - nothing else.
+
+class SubstanceNames(Harness):
+    name = 'eval_expr.substance_names'
+    props = ('C16', 'C07')
+    entry = 'eval_expr'
+    loop_bound = 30
+    describe = ('concrete companion (no symbolic variable): eval_expr on a bare name over a database with the substances hydrogen / oxygen and the '
+                'symbols H / O: names, symbols and well-formed formulas are substances; near misses (`H2s`, `hydrogens`, `H2x`, `h2`, `Hs`) are not found')
+    bounds = ['a fixed list of names; no units in the database']
+    expect_classes = ['Result::Ok', 'Result::Err']
+    _concrete = None
+    GOOD = ['hydrogen', 'H', 'O', 'H2', 'H2O', 'HO', 'O2H4']
+    BAD = ['H2s', 'hydrogens', 'H2x', 'h2', 'Hs', 'H2Os', 'Os', 'H2 ', 'sH2', 'H2ss', 'oxygens']
+    stubs = ((r'^Context::unknown_unit_err$', lambda ex, nc, a: Struct('NotFoundError', [Opaque('got'), none(ex)]), 'Context::unknown_unit_err -> opaque'),)
+
+    def build(self, ex, I):
+        names = self.GOOD + self.BAD
+        nm = names[ex.choose(len(names), 'name')]
+        kgmol = lambda: dim({'kg': (True, 1), 'mol': (True, -1)})
+        symbols, subs = MapV(), MapV()
+        for sym, full, mass in (('H', 'hydrogen', Fraction(1, 1000)), ('O', 'oxygen', Fraction(16, 1000))):
+            symbols.ent[sym] = [sym, True, full]
+            subs.ent[full] = [full, True, substance(ex, number(rational(Fraction(1)), dim({})), full,
+                                                   {'molar_mass': prop_struct(ex, number(rational(Fraction(1)), dim({})), 'amount',
+                                                                              number(rational(mass), kgmol()), 'mass')})]
+        reg = make_struct(ex, 'Registry', {'substances': subs, 'substance_symbols': symbols})
+        ctxv = make_struct(ex, 'Context', {'registry': reg, 'temporaries': MapV(), 'previous_result': none(ex)})
+        return [ref(ctxv), ref(expr_unit(ex, nm))], {'nm': nm}
+
+    def post(self, ex, ctx, outcome):
+        r = deref_all(outcome[1])
+        nm = ctx['nm']
+        if nm in self.GOOD:
+            okk = is_ok(r) and deref_all(payload(r)).vname == 'Substance'
+            return [('`%s` is a substance' % nm, bool(okk))]
+        return [('`%s` is not a substance, a symbol or a well-formed formula: not found' % nm, bool(is_err(r)))]
+
+    def case(self, ctx, vals, label):
+        c = Harness.case(self, ctx, vals, label)
+        c['inputs']['name'] = ctx['nm']
+        return c
+
+    def native(self, inputs, label):
+        return [{'mode': 'query', 'text': t} for t in ('NaCls', 'H2s', 'CH4s', 'waters', 'molar_mass of C8H10N4O2s', 'NaCl', 'H2O')]
+
+    def judge(self, inputs, label, obs):
+        bad = []
+        for t, o in zip(('NaCls', 'H2s', 'CH4s', 'waters', 'molar_mass of C8H10N4O2s'), obs):
+            if o.get('outcome') == 'ok':
+                bad.append('`%s` is answered: %s' % (t, (o.get('display') or '')[:60]))
+            if o.get('outcome') == 'panic':
+                bad.append('`%s` panics' % t)
+        for t, o in zip(('NaCl', 'H2O'), obs[5:]):
+            if o.get('outcome') != 'ok':
+                bad.append('`%s` is refused: %s' % (t, o.get('display')))
+        return bool(bad), '; '.join(bad[:3]) or 'near misses are refused, formulas accepted'
+
+
+_c16_prev3 = harnesses
+
+
+def harnesses(tier):   # noqa: F811
+    return _c16_prev3(tier) + [SubstanceNames()]
